@@ -96,6 +96,7 @@ func choiceConflict(n *dm.Node, target, src dm.Tree) bool {
 
 func c03Run(c c03Case, o *hx.Obs) {
 	root := c.Module.Root()
+	schemaClasses(o, c.Module)
 	mm, err := loadDM(c.Module)
 	if err != nil {
 		o.Failf("harness|schema-rejected", "generated schema does not load: %v\n%s", err, c.Module.Yang())
